@@ -3,6 +3,7 @@ package main
 import (
 	"fmt"
 	"go/token"
+	"strings"
 
 	"golang.org/x/tools/go/ssa"
 )
@@ -86,6 +87,52 @@ func ruleQ1(c *Ctx, id string) {
 			}
 		}
 		R.Check(every && nback > 0, id, fmt.Sprintf("kvs.MultiPut|write#%d on every iteration", i+1), P.Pos(w.Pos()), "every path through the loop body passes the OverWrite of the pair (out-of-range keys panic)", "the write dominates every back edge of the loop", "some pairs are skipped: the put installs only part of its pairs, or decides from a read that is stale when it commits")
+	}
+	// the values are the caller's, in the caller's order: no buffer that the server will reuse is handed to the
+	// journal (which keeps the slice until the block is installed), and nothing reorders or rewrites the pairs
+	for i, ws := range wsites {
+		pooled := ""
+		for v := range bwdAll(ws.sub.resolve(argN(ws.call, 2))) {
+			if cl, ok := v.(*ssa.Call); ok {
+				if cal := cl.Call.StaticCallee(); cal != nil && cal.Name() == "Get" && strings.Contains(FuncName(cal), "sync.Pool") {
+					pooled = P.Pos(cl.Pos())
+				}
+			}
+		}
+		R.Check(pooled == "", id, fmt.Sprintf("kvs.MultiPut|write#%d hands over a buffer nobody recycles", i+1), P.Pos(ws.at.Pos()), "the slice given to OverWrite does not come from a sync.Pool", "no pooled buffer", "the value is copied into a pooled buffer ("+pooled+") that is handed to the journal: the journal keeps the slice (gets are served from it, the installer writes it home later), so the next put that draws the same buffer overwrites a value that was acknowledged as durable")
+	}
+	if len(mp.Params) >= 2 {
+		pairs := ssa.Value(mp.Params[1])
+		touched := ""
+		for _, sc := range scopesOf(mp) {
+			for _, b := range sc.Fn.Blocks {
+				for _, in := range b.Instrs {
+					switch x := in.(type) {
+					case *ssa.Call:
+						if _, isB := x.Call.Value.(*ssa.Builtin); isB {
+							continue
+						}
+						if cf, _ := closureCallee(x); cf != nil {
+							continue // a local closure of MultiPut: part of it
+						}
+						for _, a := range x.Call.Args {
+							av := sc.S.resolve(stripConv(a))
+							if mi, ok := av.(*ssa.MakeInterface); ok {
+								av = sc.S.resolve(stripConv(mi.X))
+							}
+							if av == pairs {
+								touched = "passed to " + x.Call.Value.Name() + " at " + P.Pos(x.Pos())
+							}
+						}
+					case *ssa.Store:
+						if ia, ok := x.Addr.(*ssa.IndexAddr); ok && sc.S.resolve(stripConv(ia.X)) == pairs {
+							touched = "element stored at " + P.Pos(x.Pos())
+						}
+					}
+				}
+			}
+		}
+		R.Check(touched == "", id, "kvs.MultiPut|pairs written in the order given", P.Pos(mp.Pos()), "the slice of pairs is only read, in order (nothing sorts, filters or rewrites it)", "pairs reach no call and no store", "the pairs are "+touched+": when one multi-put names a key twice the last pair must win, and an (unstable) reordering can commit the earlier value")
 	}
 	reads := P.CallsIn(mp, funcIs(V.ReadBuf))
 	R.Check(len(reads) == 0, id, "kvs.MultiPut|blind writes", P.Pos(mp.Pos()), "MultiPut reads nothing through the journal: its effect does not depend on a state that another multi-put may change before the commit", "no ReadBuf", fmt.Sprintf("%d journal reads inside the multi-put: a read-check-write without a lock", len(reads)))
